@@ -264,9 +264,10 @@ Qed.
 Definition f32_ok (u : Z) : Prop := 0 <= u < 2 ^ 32.
 Definition triple_ok (t : triple) : Prop :=
   let '(x, y, z) := t in f32_ok x /\ f32_ok y /\ f32_ok z.
-(* a streamline inside the quantifier of the property: at least one point, no all-NaN point *)
+(* a streamline the format can carry: at least one point, no all-NaN point (the delimiter) and no
+   all-inf point (the end-of-file marker); TckFile.save refuses the others *)
 Definition wf_stream (s : list triple) : Prop :=
-  s <> [] /\ Forall (fun t => triple_ok t /\ nan3 t = false) s.
+  s <> [] /\ Forall (fun t => triple_ok t /\ nan3 t = false /\ inf3 t = false) s.
 
 Definition nan_delim3 : triple := Eval vm_compute in hd (0, 0, 0) (triples_of false tck_fiber_delim).
 Definition inf_delim3 : triple := Eval vm_compute in hd (0, 0, 0) (triples_of false tck_eof_delim).
@@ -361,7 +362,7 @@ Proof.
   cbn [flat_map]. rewrite <- !app_assoc. rewrite scan_points.
   - cbn [app scan]. rewrite Hnan. destruct s as [|t s']; [congruence|].
     cbn [app]. rewrite IH by assumption. rewrite <- app_assoc. reflexivity.
-  - eapply Forall_impl; [|exact Hs]. intros t [_ Ht]; exact Ht.
+  - eapply Forall_impl; [|exact Hs]. intros t (_ & Ht & _); exact Ht.
 Qed.
 
 Lemma tck_read_all_data sl : Forall wf_stream sl -> tck_read_all false (tck_data sl) = Ok sl.
@@ -402,18 +403,33 @@ Proof.
   cbn [app]. replace (0 + zlen d) with (zlen h) by lia. rewrite drop_app_exact. f_equal. lia.
 Qed.
 
-Lemma tck_save_bytes count0 items sl h0 h :
+Lemma no_bad_point sl : Forall wf_stream sl -> existsb (existsb (fun t => nan3 t || inf3 t)) sl = false.
+Proof.
+  intros H. induction sl as [|s sl IH]; [reflexivity|]. inversion H as [|? ? [_ Hs] Hsl]; subst.
+  cbn [existsb]. rewrite IH by assumption. rewrite orb_false_r.
+  clear - Hs. induction s as [|t s IHs]; [reflexivity|]. inversion Hs as [|? ? (_ & Hn & Hi) Hs']; subst.
+  cbn [existsb]. rewrite Hn, Hi, IHs by assumption. reflexivity.
+Qed.
+
+(* the refusal: a streamline with an all-NaN or all-inf point is not written *)
+Lemma tck_save_refuses count0 items sl h0 : tck_header count0 items = Ok h0 ->
+  existsb (existsb (fun t => nan3 t || inf3 t)) sl = true -> tck_save count0 items sl = Err EBadPoint.
+Proof.
+  intros E0 Hb. unfold tck_save. rewrite E0. destruct sl as [|s sl']; [discriminate|]. now rewrite Hb.
+Qed.
+
+Lemma tck_save_bytes count0 items sl h0 h : Forall wf_stream sl ->
   tck_header count0 items = Ok h0 -> tck_header (zlen sl) items = Ok h -> zlen h0 = zlen h ->
   tck_save count0 items sl = Ok (h ++ tck_data sl).
 Proof.
-  intros E0 E Hl. unfold tck_save. rewrite E0.
+  intros Hwf E0 E Hl. unfold tck_save. rewrite E0. pose proof (no_bad_point sl Hwf) as Hnb.
   rewrite (fo_write_end h0 (mkF 0 [])) by reflexivity. cbn [fpos fbytes app].
   destruct sl as [|s sl'].
   - change (zlen (@nil (list triple))) with 0 in E. rewrite E. unfold fo_seek_set. cbn [fbytes].
     rewrite <- (app_nil_r h0). rewrite fo_write_over_head by lia.
     rewrite fo_write_end by (cbn [fpos fbytes]; rewrite app_nil_r; reflexivity).
     cbn [fbytes]. rewrite app_nil_r. reflexivity.
-  - cbv beta iota. set (sl := s :: sl') in *. set (body := flat_map (fun s0 => enc_points false s0 ++ tck_fiber_delim) sl).
+  - cbv beta iota. rewrite Hnb. set (sl := s :: sl') in *. set (body := flat_map (fun s0 => enc_points false s0 ++ tck_fiber_delim) sl).
     rewrite (fo_write_end body) by (cbn [fpos fbytes]; lia). cbn [fpos fbytes].
     rewrite (fo_write_end tck_eof_delim) by (cbn [fpos fbytes]; rewrite zlen_app; lia). cbn [fpos fbytes].
     rewrite E. unfold fo_seek_set. cbn [fbytes]. rewrite <- app_assoc.
